@@ -3,27 +3,30 @@
    is present.  The guard excludes exactly the crash shapes D11a–D11d (each of which has a
    _refuted witness in Properties/C16.v). *)
 From PFDL Require Import Base Syntax.
-From PFDL.Check Require Import CheckModel CheckProofsBase Typing Guards.
+From PFDL.Check Require Import CheckModel CheckProofsBase CheckProofsC16 Typing Guards.
 
-Definition noexn {A} (r : res A) : Prop := forall k, r <> Exn k.
+(* neither a Python exception nor "outside the model" *)
+Definition bad {A} (r : res A) : bool :=
+  match r with Exn _ | Unsupported => true | _ => false end.
+Definition noexn {A} (r : res A) : Prop := bad r = false.
 
 Lemma noexn_ok : forall A (a : A), noexn (Ok a).
-Proof. intros A a k. discriminate. Qed.
+Proof. reflexivity. Qed.
 
 Lemma noexn_band : forall a b, noexn a -> noexn b -> noexn (band a b).
 Proof.
-  intros a b Ha Hb k. unfold band.
-  destruct a as [[x e1]| |k1|]; try discriminate; [|exfalso; exact (Ha k1 eq_refl)].
-  destruct b as [[y e2]| |k2|]; try discriminate. exfalso; exact (Hb k2 eq_refl).
+  intros a b Ha Hb. unfold band, noexn in *.
+  destruct a as [[x e1]| |k1|]; try discriminate; try reflexivity.
+  destruct b as [[y e2]| |k2|]; try discriminate; reflexivity.
 Qed.
 
 Lemma noexn_andthen : forall a b,
   noexn a -> (forall e, a = Ok (true, e) -> noexn b) -> noexn (andthen a b).
 Proof.
-  intros a b Ha Hb k. unfold andthen.
-  destruct a as [[[|] e1]| |k1|]; try discriminate; [|exfalso; exact (Ha k1 eq_refl)].
+  intros a b Ha Hb. unfold andthen, noexn in *.
+  destruct a as [[[|] e1]| |k1|]; try discriminate; try reflexivity.
   specialize (Hb e1 eq_refl).
-  destruct b as [[y e2]| |k2|]; try discriminate. exfalso; exact (Hb k2 eq_refl).
+  destruct b as [[y e2]| |k2|]; try discriminate; reflexivity.
 Qed.
 
 Lemma noexn_forall_from : forall A (f : nat -> A -> chk) xs i,
@@ -180,16 +183,16 @@ Section NoExn.
       + apply andb_true_iff in Ho. destruct Ho as [Hl Hr].
         destruct (operand_safe_is_number _ _ Hl) as [bl Hbl].
         destruct (operand_safe_is_number _ _ Hr) as [br Hbr].
-        destruct (rand_ok Hbl Hbr) as [z Hz]. rewrite Hz. cbn [lift_bool].
+        destruct (rand_ok _ _ _ _ Hbl Hbr) as [z Hz]. rewrite Hz. cbn [lift_bool].
         destruct z; [auto with noexn|].
         destruct (operand_safe_is_string _ _ Hl) as [sl Hsl].
         destruct (operand_safe_is_string _ _ Hr) as [sr Hsr].
-        destruct (rand_ok Hsl Hsr) as [z2 Hz2]. rewrite Hz2. cbn [lift_bool].
+        destruct (rand_ok _ _ _ _ Hsl Hsr) as [z2 Hz2]. rewrite Hz2. cbn [lift_bool].
         destruct z2; auto with noexn.
       + apply andb_true_iff in Ho. destruct Ho as [Hl Hr].
         destruct (operand_safe_is_number _ _ Hl) as [bl Hbl].
         destruct (operand_safe_is_number _ _ Hr) as [br Hbr].
-        destruct (rand_ok Hbl Hbr) as [z Hz]. rewrite Hz. cbn [lift_bool].
+        destruct (rand_ok _ _ _ _ Hbl Hbr) as [z Hz]. rewrite Hz. cbn [lift_bool].
         destruct z; auto with noexn.
       + apply andb_true_iff in Ho. destruct Ho as [Hol Hor].
         apply andb_true_iff in Hp. destruct Hp as [Hpl Hpr].
@@ -197,4 +200,335 @@ Section NoExn.
         * apply IHe1. rewrite Hol, Hpl. reflexivity.
         * intros _ _. apply IHe2. rewrite Hor, Hpr. reflexivity.
   Qed.
+
+  (* ---- struct literals --------------------------------------------------------- *)
+  Lemma noexn_check_missing : forall c defattrs fs, noexn (check_missing c defattrs fs).
+  Proof.
+    intros c defattrs fs. induction defattrs as [|[a t] r IH]; cbn [check_missing]; auto with noexn.
+    destruct (has_key a fs); auto with noexn.
+  Qed.
+
+  Lemma noexn_arr_wrap : forall (arr : chk) x,
+    noexn arr ->
+    noexn (match arr with
+           | Ok (true, es) => Ok (true, es)
+           | Ok (false, es) => Ok (false, es ++ [x])
+           | Fuel => Fuel | Exn k => Exn k | Unsupported => Unsupported
+           end).
+  Proof.
+    intros arr x Hn. unfold noexn in *. destruct arr as [[[|] es]| |k1|]; try discriminate; reflexivity.
+  Qed.
+
+  Definition Qv (v : pv) : Prop :=
+    forall jctx ictx def id, value_safe E def id v = true -> noexn (check_attr_type E jctx ictx def id v).
+  Definition Pv (v : pv) : Prop :=
+    Qv v /\ match v with
+            | PVStruct fs => Forall (fun kv => Qv (snd kv)) fs
+            | _ => True
+            end.
+
+  Lemma noexn_check_attr_type_strong : forall v, Pv v.
+  Proof.
+    intro v. induction v using pv_ind'; unfold Pv; (split; [|try exact I]);
+      try (intros jctx ictx def id Hs; cbn [check_attr_type value_safe] in *;
+           destruct (assoc id (sd_attrs def)) as [[p|p len]|]; try discriminate;
+           try solve [destruct (struct_of_prim E p); auto with noexn;
+                      destruct (check_type_of_value _ None p); auto with noexn]).
+    (* PVStruct under a struct-typed attribute *)
+    - destruct (struct_of_prim E p) as [sd'|];
+        [|destruct (check_type_of_value _ None p); auto with noexn].
+      clear - H Hs. induction fs as [|[id' v'] r IHr]; [auto with noexn|].
+      inversion H; subst. apply andb_true_iff in Hs. destruct Hs as [Hs1 Hs2].
+      apply noexn_band; [apply H2; exact Hs1 | apply IHr; assumption].
+    - clear - H. eapply Forall_impl; [|exact H]. intros a Ha. apply Ha.
+    (* PVArray under an array-typed attribute *)
+    - apply noexn_arr_wrap.
+      generalize (length vs) as n. intro n.
+      induction vs as [|value r IHr].
+      + destruct (array_length_correct n len); auto with noexn.
+      + inversion H; subst. apply andb_true_iff in Hs. destruct Hs as [Hs1 Hs2].
+        apply noexn_andthen.
+        * destruct value; auto with noexn.
+          destruct (struct_of_prim E p) as [sd'|]; [|auto with noexn].
+          apply noexn_band; [apply noexn_check_missing|].
+          destruct H2 as [_ H2]. clear - H2 Hs1.
+          induction fs as [|[id' v'] r2 IHr2]; [auto with noexn|].
+          inversion H2; subst. apply andb_true_iff in Hs1. destruct Hs1 as [Ha Hb].
+          apply noexn_band; [|apply IHr2; assumption].
+          destruct (has_key id' (sd_attrs sd')); [apply H1; exact Ha | auto with noexn].
+        * intros _ _. destruct (check_type_of_value value (Some p) p); [|auto with noexn].
+          apply IHr; assumption.
+  Qed.
+
+  Lemma noexn_check_attr_type : forall v jctx ictx def id,
+    value_safe E def id v = true -> noexn (check_attr_type E jctx ictx def id v).
+  Proof. intro v. exact (proj1 (noexn_check_attr_type_strong v)). Qed.
+
+  Lemma noexn_check_literal : forall ictx jctx s j,
+    literal_safe E s j = true -> noexn (check_literal E ictx jctx s j).
+  Proof.
+    intros ictx jctx s j Hs. unfold literal_safe in Hs. unfold check_literal.
+    destruct (parse_json j); try discriminate.
+    destruct (find_struct E s) as [sd|]; [|auto with noexn].
+    apply noexn_band; [apply noexn_check_missing|].
+    apply noexn_forall_from_in. intros i kv Hin.
+    rewrite forallb_forall in Hs. specialize (Hs kv Hin).
+    destruct (has_key (fst kv) (sd_attrs sd)); [|auto with noexn].
+    apply noexn_check_attr_type. exact Hs.
+  Qed.
+
+  (* ---- calls ---------------------------------------------------------------------- *)
+  Lemma last_cons : forall A (l : list A) a d, last (a :: l) d = last l a.
+  Proof.
+    intros A l. induction l as [|b r IH]; intros a d; [reflexivity|].
+    change (last (a :: b :: r) d) with (last (b :: r) d). rewrite IH. symmetry. apply IH.
+  Qed.
+
+  Lemma ipm_walk_cons2 : forall cur e e2 rest2,
+    ipm_walk E cur (e :: e2 :: rest2) =
+    match attr_of cur e with
+    | None => Exn KeyError
+    | Some (TArray p _) =>
+      match struct_of_prim E p with
+      | None => Exn KeyError
+      | Some sd => ipm_walk E sd rest2
+      end
+    | Some (TPlain p) =>
+      match struct_of_prim E p with
+      | None => Exn KeyError
+      | Some sd => ipm_walk E sd (e2 :: rest2)
+      end
+    end.
+  Proof. reflexivity. Qed.
+
+  (* L3 ("At this point it is known that the variable chain is valid, so dont check
+     again"): after a successful check_attribute_access on a path of the grammar's shape
+     the walk of check_if_input_parameter_matches finds every key *)
+  Lemma caa_true_ipm_ok : forall n es sd c errs prev,
+    length es <= n ->
+    caa_loop E c sd es = Ok (true, errs) ->
+    match es with [] => is_index prev = true | e :: _ => is_index e = false end ->
+    no_double_index es = true ->
+    exists cur, ipm_walk E sd es = Ok cur /\
+                (is_index (last es prev) = true \/ exists t, attr_of cur (last es prev) = Some t).
+  Proof.
+    induction n as [|n IH]; intros es sd c errs prev Hlen Hc Hhead Hnd.
+    - destruct es; [|cbn in Hlen; lia]. exists sd. split; [reflexivity|]. left. exact Hhead.
+    - destruct es as [|e [|e2 rest2]].
+      + exists sd. split; [reflexivity|]. left. exact Hhead.
+      + destruct e; try discriminate. cbn in Hc.
+        exists sd. split; [reflexivity|]. right. cbn [last attr_of].
+        destruct (assoc n0 (sd_attrs sd)); [eauto | discriminate].
+      + destruct e; try discriminate.
+        rewrite ipm_walk_cons2. cbn [attr_of].
+        change (last (PF n0 :: e2 :: rest2) prev) with (last (e2 :: rest2) prev).
+        cbn [caa_loop] in Hc.
+        destruct (assoc n0 (sd_attrs sd)) as [ty|]; [|discriminate].
+        assert (Hnd2 : no_double_index (e2 :: rest2) = true).
+        { cbn [no_double_index] in Hnd. apply andb_true_iff in Hnd. apply Hnd. }
+        destruct e2.
+        * (* field after field *)
+          destruct ty as [p|p l]; [|discriminate].
+          destruct (struct_of_prim E p) as [sd'|]; [|discriminate].
+          apply (IH (PF n1 :: rest2) sd' c errs prev); [cbn in *; lia | exact Hc | reflexivity | exact Hnd2].
+        * destruct ty as [p|p l]; [discriminate|].
+          destruct (struct_of_prim E p) as [sd'|]; [|discriminate].
+          rewrite last_cons.
+          apply (IH rest2 sd' c errs (PIdxVar v)); [cbn in *; lia | exact Hc | | ].
+          -- destruct rest2 as [|e3 r3]; [reflexivity|].
+             cbn [no_double_index] in Hnd2. apply andb_true_iff in Hnd2. destruct Hnd2 as [Hx _].
+             cbn in Hx. destruct (is_index e3); [discriminate | reflexivity].
+          -- destruct rest2 as [|e3 r3]; [reflexivity|].
+             cbn [no_double_index] in Hnd2. apply andb_true_iff in Hnd2. apply Hnd2.
+        * destruct ty as [p|p l]; [discriminate|].
+          destruct (struct_of_prim E p) as [sd'|]; [|discriminate].
+          rewrite last_cons.
+          apply (IH rest2 sd' c errs (PIdxLit k)); [cbn in *; lia | exact Hc | | ].
+          -- destruct rest2 as [|e3 r3]; [reflexivity|].
+             cbn [no_double_index] in Hnd2. apply andb_true_iff in Hnd2. destruct Hnd2 as [Hx _].
+             cbn in Hx. destruct (is_index e3); [discriminate | reflexivity].
+          -- destruct rest2 as [|e3 r3]; [reflexivity|].
+             cbn [no_double_index] in Hnd2. apply andb_true_iff in Hnd2. apply Hnd2.
+        * destruct ty as [p|p l]; [discriminate|].
+          destruct (struct_of_prim E p) as [sd'|]; [|discriminate].
+          rewrite last_cons.
+          apply (IH rest2 sd' c errs PIdxNone); [cbn in *; lia | exact Hc | | ].
+          -- destruct rest2 as [|e3 r3]; [reflexivity|].
+             cbn [no_double_index] in Hnd2. apply andb_true_iff in Hnd2. destruct Hnd2 as [Hx _].
+             cbn in Hx. destruct (is_index e3); [discriminate | reflexivity].
+          -- destruct rest2 as [|e3 r3]; [reflexivity|].
+             cbn [no_double_index] in Hnd2. apply andb_true_iff in Hnd2. apply Hnd2.
+  Qed.
+
+  Lemma noexn_check_input_matches : forall T ti pi p defined c errs,
+    match p with
+    | PPath v es => grammar_path es = true /\ check_attribute_access E T c v es = Ok (true, errs)
+    | _ => True
+    end ->
+    noexn (check_input_matches E T ti pi p defined).
+  Proof.
+    intros T ti pi p defined c errs Hp. unfold check_input_matches.
+    destruct p as [v|v es|s j].
+    - destruct (assoc v (td_vars T)); [destruct (vtype_eqb v0 defined)|]; auto with noexn.
+    - destruct Hp as [Hg Hc]. unfold check_attribute_access in Hc.
+      destruct (assoc v (td_vars T)) as [[p|p l]|]; try discriminate.
+      cbn [struct_of_type]. destruct (struct_of_prim E p) as [sd|]; [|discriminate].
+      unfold grammar_path in Hg. destruct es as [|e rest]; [discriminate|]. destruct e; try discriminate.
+      destruct (caa_true_ipm_ok (length (PF n :: rest)) (PF n :: rest) sd c errs (PF v)
+                                (le_n _) Hc eq_refl Hg) as (cur & Hw & Hl).
+      rewrite Hw. destruct Hl as [Hl | [t Ht]].
+      + rewrite Hl. destruct (given_differs _ defined); auto with noexn.
+      + destruct (is_index (last (PF n :: rest) (PF v))).
+        * destruct (given_differs _ defined); auto with noexn.
+        * rewrite Ht. destruct (given_differs _ defined); auto with noexn.
+    - destruct (vtype_eqb _ defined); auto with noexn.
+  Qed.
+
+  Lemma noexn_forall2 : forall A B (f : A -> B -> chk) l1 l2,
+    (forall x y, In x l1 -> noexn (f x y)) -> noexn (forall2_chk f l1 l2).
+  Proof.
+    intros A B f l1. induction l1 as [|x r IH]; intros l2 Hf; destruct l2; cbn [forall2_chk]; auto with noexn.
+    apply noexn_band.
+    - apply Hf. left. reflexivity.
+    - apply IH. intros. apply Hf. right. assumption.
+  Qed.
+
+  Lemma forall_from_true_in : forall A (f : nat -> A -> chk) xs i es x,
+    forall_from f i xs = Ok (true, es) -> In x xs -> exists j e, f j x = Ok (true, e).
+  Proof.
+    intros A f xs i es x H Hin. apply In_nth_error in Hin. destruct Hin as [j Hj].
+    destruct (forall_from_nth _ f xs i true es j x H Hj) as (b & e & Hf & _ & Hb).
+    exists (i + j), e. rewrite Hf. rewrite (Hb eq_refl). reflexivity.
+  Qed.
+
+  Lemma has_key_assoc : forall V k (d : list (name * V)),
+    has_key k d = true -> exists v, assoc k d = Some v.
+  Proof. intros V k d H. unfold has_key in H. destruct (assoc k d); [eauto | discriminate]. Qed.
+
+  Definition params_safe (T : tdef) (ins : list param) : Prop :=
+    forallb (param_access_safe E T) ins = true /\ forallb (param_literal_safe E) ins = true.
+
+  Lemma noexn_check_call_parameters : forall T ti pi ins outs,
+    params_safe T ins -> noexn (check_call_parameters E T ti pi ins outs).
+  Proof.
+    intros T ti pi ins outs [Ha Hl]. unfold check_call_parameters. apply noexn_band.
+    - destruct ins as [|p0 r0]; [auto with noexn|]. unfold check_call_inputs.
+      apply noexn_forall_from_in. intros j x Hin.
+      rewrite forallb_forall in Ha, Hl. specialize (Ha x Hin). specialize (Hl x Hin).
+      unfold check_input_param. destruct x.
+      + destruct (has_key v (td_vars T)); auto with noexn.
+      + apply noexn_check_attribute_access. exact Ha.
+      + apply noexn_check_literal. exact Hl.
+    - destruct (call_outs outs) eqn:Ho; [auto with noexn|]. unfold check_call_outputs. rewrite Ho.
+      apply noexn_forall_from_in. intros. apply noexn_check_vardef.
+  Qed.
+
+  Lemma noexn_check_task_call : forall T ti pi c,
+    params_safe T (c_ins c) -> noexn (check_task_call E T ti pi c).
+  Proof.
+    intros T ti pi c Hs. unfold check_task_call.
+    destruct (has_key (c_name c) (e_tasks E)) eqn:Hk; [|auto with noexn].
+    apply noexn_andthen; [apply noexn_check_call_parameters; exact Hs|].
+    intros e He. unfold check_call_matches, find_tdef.
+    destruct (has_key_assoc _ _ _ Hk) as [called Hcalled]. rewrite Hcalled.
+    apply noexn_andthen.
+    - unfold check_length_match.
+      destruct (negb _); [auto with noexn|]. destruct (negb _); auto with noexn.
+    - intros _ _. apply noexn_band.
+      + apply noexn_forall2. intros p def Hin.
+        destruct p as [v|v es|s j].
+        * apply (noexn_check_input_matches T ti pi (PVar v) (snd def) CFile []). exact I.
+        * (* the path passed check_attribute_access inside check_call_parameters *)
+          unfold check_call_parameters in He. apply band_ok in He.
+          destruct He as (x & e1 & y & e2 & H1 & _ & Hxy & _).
+          symmetry in Hxy. apply andb_true_iff in Hxy. destruct Hxy as [Hx _]. subst x.
+          destruct (c_ins c) as [|p0 r0] eqn:Hins; [destruct Hin|].
+          unfold check_call_inputs in H1.
+          destruct (forall_from_true_in _ _ _ _ _ _ H1 Hin) as (j & e' & Hj).
+          cbn [check_input_param] in Hj.
+          destruct Hs as [Ha _]. rewrite forallb_forall in Ha. specialize (Ha _ Hin).
+          cbn [param_access_safe] in Ha. unfold access_safe in Ha. apply andb_true_iff in Ha.
+          apply (noexn_check_input_matches T ti pi (PPath v es) (snd def) (CStmtIn ti pi) e').
+          split; [apply Ha | exact Hj].
+        * apply (noexn_check_input_matches T ti pi (PLit s j) (snd def) CFile []). exact I.
+      + apply noexn_forall2. intros o out_name _. unfold check_output_matches.
+        destruct (assoc out_name (td_vars called)); [destruct (vtype_eqb _ _)|]; auto with noexn.
+  Qed.
+
+  (* ---- statements, tasks ---------------------------------------------------------- *)
+  Lemma forallb_Forall : forall A (f : A -> bool) l, forallb f l = true -> Forall (fun x => f x = true) l.
+  Proof. intros A f l H. apply Forall_forall. apply forallb_forall. exact H. Qed.
+
+  Lemma noexn_check_stmt : forall T s pi,
+    stmt_all (expr_operands_safe E T) (fun _ => true) s = true ->
+    stmt_all (expr_paths_safe E T) (param_access_safe E T) s = true ->
+    stmt_all (fun _ => true) (param_literal_safe E) s = true ->
+    noexn (check_stmt E T pi s).
+  Proof.
+    intros T s. induction s using stmt_ind'; intros pi H1 H2 H3; cbn [check_stmt stmt_all] in *.
+    - apply noexn_check_call_parameters. split; assumption.
+    - apply noexn_check_task_call. split; assumption.
+    - apply noexn_forall_from_in. intros j c Hin. apply noexn_check_task_call.
+      rewrite forallb_forall in H2, H3. split; [apply H2 | apply H3]; assumption.
+    - apply andb_true_iff in H1, H2, H3. destruct H1 as [H1 H1e], H2 as [H2 H2e], H3 as [H3 _].
+      apply noexn_band.
+      + apply noexn_forall_from. rewrite Forall_forall in H. apply Forall_forall. intros x Hin j.
+        rewrite forallb_forall in H1, H2, H3. apply H; auto.
+      + apply noexn_check_expression. unfold expr_safe. rewrite H1e, H2e. reflexivity.
+    - destruct par.
+      + destruct (is_single_call b); auto with noexn.
+      + apply noexn_forall_from. rewrite Forall_forall in H. apply Forall_forall. intros x Hin j.
+        rewrite forallb_forall in H1, H2, H3. apply H; auto.
+    - apply andb_true_iff in H1, H2, H3. destruct H1 as [H1 H1e], H2 as [H2 H2e], H3 as [H3 _].
+      apply andb_true_iff in H1, H2, H3. destruct H1 as [H1p H1f], H2 as [H2p H2f], H3 as [H3p H3f].
+      apply noexn_band; [|apply noexn_band].
+      + apply noexn_forall_from. rewrite Forall_forall in H. apply Forall_forall. intros x Hin j.
+        rewrite forallb_forall in H1p, H2p, H3p. apply H; auto.
+      + apply noexn_forall_from. rewrite Forall_forall in H0. apply Forall_forall. intros x Hin j.
+        rewrite forallb_forall in H1f, H2f, H3f. apply H0; auto.
+      + apply noexn_check_expression. unfold expr_safe. rewrite H1e, H2e. reflexivity.
+  Qed.
+
+  Lemma noexn_check_task : forall T,
+    task_all (expr_operands_safe E) (fun _ _ => true) T = true ->
+    task_all (expr_paths_safe E) (param_access_safe E) T = true ->
+    task_all (fun _ _ => true) (fun _ => param_literal_safe E) T = true ->
+    noexn (check_task E T).
+  Proof.
+    intros T H1 H2 H3. unfold task_all in *. unfold check_task. apply noexn_band; [|apply noexn_band].
+    - unfold check_statements. apply noexn_forall_from_in. intros j s Hin.
+      rewrite forallb_forall in H1, H2, H3. apply noexn_check_stmt; auto.
+    - unfold check_task_inputs. apply noexn_forall_from_in. intros. apply noexn_check_vardef.
+    - unfold check_task_outputs. apply noexn_forall_from_in. intros.
+      destruct (has_key x (td_vars T)); auto with noexn.
+  Qed.
 End NoExn.
+
+Theorem crash_free_verdict : forall p,
+  crash_free p = true -> exists es, validate p = Ok es.
+Proof.
+  intros p Hcf. unfold crash_free in Hcf.
+  apply andb_true_iff in Hcf. destruct Hcf as [Hcf H3].
+  apply andb_true_iff in Hcf. destruct Hcf as [H1 H2].
+  unfold g_operands, g_access, g_literal, prog_all in *.
+  set (E := visit_env p) in *.
+  assert (Hn : noexn (validate_process E)).
+  { unfold validate_process. apply noexn_band; [apply noexn_check_structs|].
+    unfold check_tasks.
+    assert (Hn : noexn (forall_from (fun (_ : nat) (kv : name * tdef) => check_task E (snd kv)) 0 (e_tasks E))).
+    { apply noexn_forall_from_in. intros j kv Hin.
+      rewrite forallb_forall in H1, H2, H3. apply noexn_check_task; auto. }
+    unfold noexn in *.
+    destruct (forall_from _ 0 (e_tasks E)) as [[valid es]| |k1|]; try discriminate; try reflexivity.
+    destruct (has_key production_task (e_tasks E)); reflexivity. }
+  pose proof (proj1 (CheckProofsC16.good_validate_process E)) as Hf. unfold nofuel in Hf.
+  unfold validate. fold E. unfold noexn in Hn.
+  destruct (validate_process E) as [[b es]| |k1|]; try discriminate; try congruence.
+  eauto.
+Qed.
+
+Theorem crash_free_no_exception : forall p,
+  crash_free p = true -> forall k, validate p <> Exn k.
+Proof.
+  intros p Hcf k. destruct (crash_free_verdict p Hcf) as [es Hes]. rewrite Hes. discriminate.
+Qed.
